@@ -17,6 +17,12 @@ package toerror
 //@ param ftyp: nresults=1,2,3 lastbool
 // parameter names are always present here: the registering Add renames blank and empty names (derive.RenameBlankIdentifier)
 //@ emits: decls
+// the emitted function's name is the parameter deriveFuncName (Generate passes g.GetFuncName(typs...))
+//@ serves: toerror len=1 ftyp=typs[0]
+//@ o-name-param: deriveFuncName
+//@ o-sig: (err error, f $ftyp) (r func())
+//@ o-header: unchecked
+//@ o-requires: f != nil
 //@ o-closure: cr0 cr1 cr2
 //@ o-closure-ensures: when nparams(ftyp)=0 [one-call-arguments-in-place] traceLen() == 1 && called(0, f)
 //@ o-closure-ensures: when nparams(ftyp)=0 when nresults(ftyp)=1 [bool-to-error-others-unchanged] (result(0, f) ==> cr0 == nil) && (!result(0, f) ==> cr0 == err)
